@@ -499,7 +499,7 @@ namespace BitSerializer::Convert::Detail
 		SafeAddDuration(tp, std::chrono::seconds(time));
 		if (utc.SecFractions) {
 			// Only seconds fractions can be rounded to target timepoint type
-			SafeAddDuration(tp, std::chrono::round<TDuration>(utc.SecFractions.value()));
+			SafeAddDuration(tp, std::chrono::round<std::chrono::duration<int64_t, typename TDuration::period>>(utc.SecFractions.value()));
 		}
 		SafeAddDuration(tp, std::chrono::duration<int64_t, std::ratio<86400>>(days));
 		out = tp;
@@ -624,7 +624,7 @@ namespace BitSerializer::Convert::Detail
 									throw std::invalid_argument("Input ISO duration has fractions in the non-seconds part");
 								}
 							}
-							SafeAddDuration(duration, std::chrono::round<TTargetDuration>(isNegative ? -ns : ns));
+							SafeAddDuration(duration, std::chrono::round<std::chrono::duration<int64_t, TPeriod>>(isNegative ? -ns : ns));
 						}
 
 						if (isNegative)
